@@ -39,7 +39,7 @@ def _local_defs(func, d):
         c = n.get('c', [])
         if k == 'Var' and n.get('d') == d and c:
             out.append(c[0])
-        elif k in ('Bin', 'CAssign') and c and c[0].get('k') == 'Ref' and c[0].get('d') == d:
+        elif ((k == 'Bin' and n.get('op') == '=') or k == 'CAssign') and c and c[0].get('k') == 'Ref' and c[0].get('d') == d:
             out.append(c[1])
         elif k == 'Call' and n.get('opc') in ('=', '+=') and c and c[0].get('k') == 'Ref' and c[0].get('d') == d and len(c) > 1:
             out.append(c[1])
@@ -257,17 +257,29 @@ def run(F, rep):
             bad = 'path entering case %s pushes %s' % (entered, cnt)
             break
     rep.check(bad is None, 'C15.L2', 'addIssue|paths', add.where(), bad, '%d paths, each pushes mIssues once and the matching level vector once' % len(P))
-    # the switch is over issue->level()
-    sws = [n for n in add.walk() if n.get('k') == 'Switch']
-    okc = False
-    if sws:
-        cnd = role(sws[0], 'cond')
-        src = cnd
-        if cnd.get('k') == 'Ref' and cnd.get('dk') == 'local':
-            defs = _local_defs(add, cnd['d'])
-            src = defs[0] if len(defs) == 1 else None
-        okc = src is not None and any(is_call(x, 'libcellml::Issue::level') for x in walk(src))
-    rep.check(okc, 'C15.L2', 'addIssue|switch-on-level', add.where(), 'the dispatch of addIssue is not on issue->level()', 'dispatch on issue->level()')
+    # the dispatch (switch or if-chain) is over issue->level(), and each level files the issue under its own vector: abstract execution per enumerator
+    import enumexec
+
+    def _is_level(e):
+        if any(is_call(x, 'libcellml::Issue::level') for x in walk(e)):
+            return True
+        if e.get('k') == 'Ref' and e.get('dk') == 'local':
+            defs = _local_defs(add, e['d'])
+            return len(defs) == 1 and any(is_call(x, 'libcellml::Issue::level') for x in walk(defs[0]))
+        return False
+
+    def _eff(c_):
+        if c_.get('fn') in ('push_back', 'emplace_back') and c_.get('mc'):
+            r_ = receiver(c_)
+            if r_ is not None and r_.get('k') == 'Member' and r_['n'] in LOGGER_VECTORS:
+                return r_['n']
+        return None
+    try:
+        eff = enumexec.dispatch_effects(F, add, _is_level, 'libcellml::Issue::Level', _eff)
+        wrong = {lv_: e_ for lv_, e_ in eff.items() if sorted(e_) != sorted(['mIssues', LEVEL_VECTOR.get(lv_, 'mMessages')])}
+        rep.check(not wrong, 'C15.L2', 'addIssue|switch-on-level', add.where(), 'addIssue files an issue of level %s' % ', '.join('%s under %s' % (k_, v_) for k_, v_ in sorted(wrong.items())), 'per level: %s' % {k_: sorted(v_) for k_, v_ in sorted(eff.items())})
+    except enumexec.Unknown as e_:
+        raise AnalysisBroken('addIssue: the dispatch on issue->level() is outside the fragment the abstract execution understands (%s)' % e_)
     # index variable = mIssues.size() evaluated before the push into mIssues; level pushes push that variable
     idx_ok = False
     detail = 'no local initialised from mIssues.size()'
